@@ -196,8 +196,8 @@ func vfEstJC(alphas []float64, o vfObs) {
 }
 
 // H_C07_est_jc: JCModel.Distance equals -3/4 ln(1-4p/3) (gamma: 3/4 a((1-4p/3)^(-1/a)-1)); zero without differences; >= p; undefined never reported as a small finite value.
-// bounds: the 4-kind pair, each site selected or not, weights dyadic k/2 (k=1..8); plain and gamma with alpha in {1/2, 1, 2}
-// outside: other alpha (thorough twin: 7/3, 1/4, 5), weights off the grid; IEEE rounding is outside the claim: floats are exact reals; ln/pow are uninterpreted with the axioms of DESIGN.md §2.4
+// bounds: the 4-kind pair, each site selected or not (symbolic), free positive dyadic weights k/2 (k=1..8) (so also: no comparable site); plain and gamma with alpha in {1/2, 1, 2}
+// outside: other alpha (thorough twin: 7/3, 1/4, 5), weights off the grid; for alpha = 1/2 and 1 the engine computes x^(-1/alpha) exactly and "d >= p" / the graded saturation assertion are not stated separately (nonlinear; they follow from the closed form resp. the stronger saturation assertion); IEEE rounding is outside the claim: floats are exact reals; ln/pow are uninterpreted with the axioms of DESIGN.md §2.4
 func H_C07_est_jc() {
 	vfEstJC(vfAlphas, vfPair(1, 8))
 }
@@ -226,18 +226,18 @@ func vfEstK2P(alphas []float64, o vfObs) {
 }
 
 // H_C07_est_k2p: K2PModel.Distance equals -1/2 ln(1-2P-Q) - 1/4 ln(1-2Q) and its gamma variant.
-// bounds: the 4-kind pair, each site selected or not, weights dyadic k/2 (k=1..8); plain and gamma with alpha in {1/2, 1, 2}
-// outside: other alpha (thorough twin), weights off the grid; IEEE rounding is outside the claim: floats are exact reals; ln/pow uninterpreted (DESIGN.md §2.4)
+// bounds: the 4-kind pair, every non-empty subset of its sites selected (enumerated), positive dyadic weights k/2 summing to 8 (proportions = all multiples of 1/16 compatible with the subset); plain and gamma with alpha in {1/2, 1, 2}
+// outside: other alpha (thorough twin), weights off the grid, pairs without comparable site (H_C07_est_nocomparable); for alpha = 1/2 and 1 the engine computes x^(-1/alpha) exactly and "d >= p" / the graded saturation assertion are not stated separately (nonlinear; they follow from the closed form resp. the stronger saturation assertion); IEEE rounding is outside the claim: floats are exact reals; ln/pow uninterpreted (DESIGN.md §2.4)
 func H_C07_est_k2p() {
 	vfEstK2P(vfAlphas, vfPairNorm(8))
 }
 
 // H_C07_est_k2p_deep: as H_C07_est_k2p at more alphas and a finer weight grid.
-// bounds: weights k/2 (k=1..40), alpha in {7/3, 1/4, 5}
+// bounds: weights k/2 summing to 20, alpha in {7/3, 1/4, 5}
 // outside: IEEE rounding is outside the claim: floats are exact reals
 //verif: tier=thorough
 func H_C07_est_k2p_deep() {
-	vfEstK2P(vfAlphasThorough, vfPair(1, 40))
+	vfEstK2P(vfAlphasThorough, vfPairNorm(20))
 }
 
 // ------------------------------------------------------------------------------------------- F81
@@ -256,8 +256,8 @@ func vfEstF81(pts []vfFreq, alphas []float64, o vfObs) {
 }
 
 // H_C07_est_f81: F81Model.Distance equals -B ln(1-p/B), B = 1 - sum pi^2, and its gamma variant.
-// bounds: the 4-kind pair, each site selected or not, weights dyadic k/2 (k=1..8); frequencies at 3 sample points (uniform, (1/2,1/4,1/8,1/8), (1/8,1/8,1/4,1/2)); plain and gamma with alpha in {1/2, 1, 2}
-// outside: frequencies and alpha off the sample points (thorough twin adds 3+3), weights off the grid; IEEE rounding is outside the claim: floats are exact reals; ln/pow uninterpreted (DESIGN.md §2.4)
+// bounds: the 4-kind pair, each site selected or not (symbolic), free positive dyadic weights k/2 (k=1..8) (so also: no comparable site); frequencies at 3 sample points (uniform, (1/2,1/4,1/8,1/8), (1/8,1/8,1/4,1/2)); plain and gamma with alpha in {1/2, 1, 2}
+// outside: frequencies and alpha off the sample points (thorough twin adds 3+3), weights off the grid; for alpha = 1/2 and 1 the engine computes x^(-1/alpha) exactly and "d >= p" / the graded saturation assertion are not stated separately (nonlinear; they follow from the closed form resp. the stronger saturation assertion); IEEE rounding is outside the claim: floats are exact reals; ln/pow uninterpreted (DESIGN.md §2.4)
 func H_C07_est_f81() {
 	vfEstF81(vfFreqPts, vfAlphas, vfPair(1, 8))
 }
@@ -293,14 +293,14 @@ func vfEstF84(pts []vfFreq, alphas []float64, o vfObs) {
 }
 
 // H_C07_est_f84: F84Model.Distance equals the Felsenstein-Churchill closed form and its gamma variant.
-// bounds: the 4-kind pair, each site selected or not, weights dyadic k/2 (k=1..8); frequencies at 3 sample points; plain and gamma with alpha in {1/2, 1, 2}; model parameters a,b,c set as published from the frequencies (their derivation by InitModel: H_C07_init_params)
-// outside: frequencies and alpha off the sample points (thorough twin adds 3+3); IEEE rounding is outside the claim: floats are exact reals; ln/pow uninterpreted (DESIGN.md §2.4)
+// bounds: the 4-kind pair, every non-empty subset of its sites selected (enumerated), positive dyadic weights k/2 summing to 8 (proportions = all multiples of 1/16 compatible with the subset); frequencies at 3 sample points (uniform, (1/2,1/4,1/8,1/8), (1/8,1/8,1/4,1/2)); plain and gamma with alpha in {1/2, 1, 2}; model parameters a,b,c set as published from the frequencies (their derivation by InitModel: H_C07_init_params)
+// outside: frequencies and alpha off the sample points (thorough twin adds 3+3), pairs without comparable site (H_C07_est_nocomparable); for alpha = 1/2 and 1 the engine computes x^(-1/alpha) exactly and "d >= p" / the graded saturation assertion are not stated separately (nonlinear; they follow from the closed form resp. the stronger saturation assertion); IEEE rounding is outside the claim: floats are exact reals; ln/pow uninterpreted (DESIGN.md §2.4)
 func H_C07_est_f84() {
 	vfEstF84(vfFreqPts, vfAlphas, vfPairNorm(8))
 }
 
 // H_C07_est_f84_deep: as H_C07_est_f84 at more sample points.
-// bounds: frequencies (1/10,2/10,3/10,4/10), (1/16,1/16,1/8,3/4), (3/8,1/8,3/8,1/8); alpha in {7/3, 1/4, 5}; weights k/2 (k=1..40)
+// bounds: frequencies (1/10,2/10,3/10,4/10), (1/16,1/16,1/8,3/4), (3/8,1/8,3/8,1/8); alpha in {7/3, 1/4, 5}; weights k/2 summing to 20
 // outside: IEEE rounding is outside the claim: floats are exact reals
 //verif: tier=thorough
 func H_C07_est_f84_deep() {
@@ -330,14 +330,14 @@ func vfEstTN93(pts []vfFreq, alphas []float64, o vfObs) {
 }
 
 // H_C07_est_tn93: TN93Model.Distance equals the Tamura-Nei closed form and its gamma variant.
-// bounds: the 4-kind pair, each site selected or not, weights dyadic k/2 (k=1..8); frequencies at 3 sample points; plain and gamma with alpha in {1/2, 1, 2}
-// outside: frequencies and alpha off the sample points (thorough twin adds 3+3); IEEE rounding is outside the claim: floats are exact reals; ln/pow uninterpreted (DESIGN.md §2.4)
+// bounds: the 4-kind pair, every non-empty subset of its sites selected (enumerated), positive dyadic weights k/2 summing to 8 (proportions = all multiples of 1/16 compatible with the subset); frequencies at 3 sample points (uniform, (1/2,1/4,1/8,1/8), (1/8,1/8,1/4,1/2)); plain and gamma with alpha in {1/2, 1, 2}
+// outside: frequencies and alpha off the sample points (thorough twin adds 3+3), pairs without comparable site (H_C07_est_nocomparable); for alpha = 1/2 and 1 the engine computes x^(-1/alpha) exactly and "d >= p" / the graded saturation assertion are not stated separately (nonlinear; they follow from the closed form resp. the stronger saturation assertion); IEEE rounding is outside the claim: floats are exact reals; ln/pow uninterpreted (DESIGN.md §2.4)
 func H_C07_est_tn93() {
 	vfEstTN93(vfFreqPts, vfAlphas, vfPairNorm(8))
 }
 
 // H_C07_est_tn93_deep: as H_C07_est_tn93 at more sample points.
-// bounds: frequencies (1/10,2/10,3/10,4/10), (1/16,1/16,1/8,3/4), (3/8,1/8,3/8,1/8); alpha in {7/3, 1/4, 5}; weights k/2 (k=1..40)
+// bounds: frequencies (1/10,2/10,3/10,4/10), (1/16,1/16,1/8,3/4), (3/8,1/8,3/8,1/8); alpha in {7/3, 1/4, 5}; weights k/2 summing to 20
 // outside: IEEE rounding is outside the claim: floats are exact reals
 //verif: tier=thorough
 func H_C07_est_tn93_deep() {
@@ -416,9 +416,22 @@ func vfEstPdistRaw(L int) {
 	verifReach("pdist")
 	rd, rt := vfRefDiffs(s1, s2, sel, w, gapmode, rmAmb)
 	verifAssert(err == nil, "no error")
+	// Two steps, because "d * length == differences" is a nonlinear query on which the solver
+	// gives up under load: (1) the counter documented for this gap mode equals the reference
+	// counts (linear), (2) the distance is the quotient of exactly these two counts.
+	var cd, ct float64
+	switch gapmode {
+	case 0:
+		cd, ct = countDiffs(s1, s2, sel, w, rmAmb)
+	case 1:
+		cd, ct = countDiffsWithInternalGaps(s1, s2, sel, w, rmAmb)
+	default:
+		cd, ct = countDiffsWithGaps(s1, s2, sel, w, rmAmb)
+	}
+	verifAssert(cd == rd && ct == rt, "the counter of the gap mode equals the per-site definition")
 	if rt > 0 {
 		verifReach("pdist-defined")
-		verifAssert(vfClose(d*rt, rd), "pdist = differing sites / counted sites")
+		verifAssert(vfClose(d, cd/ct), "pdist = differing sites / counted sites")
 		verifAssert(d >= 0 && d <= 1, "pdist is a proportion")
 	} else {
 		verifAssert(!(vfFinite(d) && d >= 0), "pdist without counted site is undefined")
